@@ -249,10 +249,11 @@ def trackerInserted {N : Type} (fresh : Nat → Nat) (inner : Inner N) : List (N
   inner.filterMap fun (_, e) => e.inserted.map fun (n, pn) => (resolve fresh pn, n)
 
 /-- `leaf_stage::run` with one worker.  `pagesOf` = what `overflow::delete` finds for a cell, `lvl` = what
-`indexed_leaf` sees (the leaf level through the branch index), `seeded` see `skipGuard`. -/
+`indexed_leaf` sees (the leaf level through the branch index), `seeded` see `skipGuard`; `f11 = true`: the code before the
+repair of finding F11 (`filter_leaves_changeset` computed `leaf_changeset.len() - 1` like its branch twin still does). -/
 def leafStage (sepf : Nat → Nat → Option Nat) (pagesOf : V → List Nat) (fresh : Nat → Nat) (seeded : Bool)
-    (lvl : Level) (lpn : Nat → Nat) (db : List (DbLeaf V)) (cs : List (Nat × Option (V × Bool))) (ovfAllocs : Nat) :
-    Option (LeafOut V) :=
+    (lvl : Level) (lpn : Nat → Nat) (db : List (DbLeaf V)) (cs : List (Nat × Option (V × Bool))) (ovfAllocs : Nat)
+    (f11 : Bool := false) : Option (LeafOut V) :=
   match leafWorker sepf lpn db cs with
   | none => none
   | some x =>
@@ -263,7 +264,7 @@ def leafStage (sepf : Nat → Nat → Option Nat) (pagesOf : V → List Nat) (fr
     -- `apply_worker_changes`: overflow cells first, then the tracker in key order, then `extra_freed`
     let freed := x.r.log.flatMap pagesOf ++ trackerFreed tr.inner ++ tr.extraFreed.map (resolve fresh)
     let inserted := trackerInserted fresh tr.inner
-    match filterCs true changes with
+    match filterCs (!f11) changes with
     | none => none
     | some filtered =>
       match enforceFirst seeded lvl filtered with
@@ -414,13 +415,14 @@ structure UpdateOut (V : Type) where
 /-- `ops::update` with one worker: the leaf stage on the OLD index, the branch stage on a copy of the index with the
 leaf changeset, the two `finish` calls get the stages' `freed_pages` -/
 def update (sepf : Nat → Nat → Option Nat) (kf : BranchUpd.KF) (pagesOf : V → List Nat) (lnFresh bbnFresh : Nat → Nat)
-    (seeded : Bool) (t : Tree V) (cs : List (Nat × Option (V × Bool))) (ovfAllocs : Nat) : Option (UpdateOut V) :=
+    (seeded : Bool) (t : Tree V) (cs : List (Nat × Option (V × Bool))) (ovfAllocs : Nat) (f11 : Bool := false) :
+    Option (UpdateOut V) :=
   if cs.isEmpty then
     -- `leaf_stage::run` and `branch_stage::run` return their defaults
     some { index := t.index, leafChangeset := [], lnFreed := [], bbnFreed := [], lnAllocs := 0, bbnAllocs := 0,
            submittedIo := 0, postIo := [], leafLevel := t.leaves.map .old, branchLevel := t.index.map .old }
   else
-  match leafStage sepf pagesOf lnFresh seeded t.level t.lpn t.leaves cs ovfAllocs with
+  match leafStage sepf pagesOf lnFresh seeded t.level t.lpn t.leaves cs ovfAllocs f11 with
   | none => none
   | some lo =>
     match branchStage kf bbnFresh t.index lo.changeset with
